@@ -1,5 +1,5 @@
 From Coq Require Import List NArith ZArith Permutation.
-From SK Require Import lib.LGraph lib.StrJoin model.C08_Model proof.C08_Spec proof.C08_Faithful proof.C08_Nauty proof.C08_SigFun.
+From SK Require Import lib.LGraph lib.StrJoin model.C08_Model proof.C08_Spec proof.C08_Faithful proof.C08_Nauty proof.C08_SigFun proof.C08_Sound.
 Import ListNotations.
 
 (** 1. Faithfulness: the canonical graph is the input relabelled by a map that is injective on its nodes;
@@ -57,3 +57,37 @@ Theorem C08_signature_function_wl_morgan : forall (D : Type) (digest : str -> D)
   digest (serialise (canon_rank ranks g)) = digest (serialise (canon_rank ranks h)).
 Proof. exact signature_function_rank. Qed.
 Print Assumptions C08_signature_function_wl_morgan.
+
+(** 4. Soundness: equal signatures make the two graphs isomorphic on the attributes the signature covers
+       (element, charge, aromatic, hcount; order, standard_order): there is a map, injective on the nodes of [g],
+       that carries the covered node set and covered edge set of [g] onto those of [h].
+       Premises: both graphs well formed (networkx.Graph without self-loops), element symbols alphanumeric
+       ([els_ok]: the serialisation quotes them without escaping), and the digest does not collide on the two
+       strings compared (SHA-256 truncated to 128 bits; monitored on every run).  From injectivity of the
+       serialisation (separator parsing, lib/StrJoin.v) and faithfulness.  wl / morgan: whatever the rankings. *)
+Theorem C08_signature_sound_generic : forall (D : Type) (digest : str -> D) (g h : graph),
+  wf g -> wf h -> els_ok g -> els_ok h ->
+  (digest (serialise (canon_generic g)) = digest (serialise (canon_generic h)) ->
+   serialise (canon_generic g) = serialise (canon_generic h)) ->
+  digest (serialise (canon_generic g)) = digest (serialise (canon_generic h)) ->
+  exists f, inj_on f (node_ids g) /\ geq_cov (relabel f g) h.
+Proof. exact signature_sound_generic. Qed.
+Print Assumptions C08_signature_sound_generic.
+
+Theorem C08_signature_sound_wl_morgan : forall (D : Type) (digest : str -> D) (r r' : list (N * Z)) (g h : graph),
+  wf g -> wf h -> els_ok g -> els_ok h ->
+  (digest (serialise (canon_rank r g)) = digest (serialise (canon_rank r' h)) ->
+   serialise (canon_rank r g) = serialise (canon_rank r' h)) ->
+  digest (serialise (canon_rank r g)) = digest (serialise (canon_rank r' h)) ->
+  exists f, inj_on f (node_ids g) /\ geq_cov (relabel f g) h.
+Proof. exact signature_sound_rank. Qed.
+Print Assumptions C08_signature_sound_wl_morgan.
+
+Theorem C08_signature_sound_nauty : forall (D : Type) (digest : str -> D) (g h : graph),
+  wf g -> wf h -> els_ok g -> els_ok h ->
+  (digest (serialise (canon_nauty g)) = digest (serialise (canon_nauty h)) ->
+   serialise (canon_nauty g) = serialise (canon_nauty h)) ->
+  digest (serialise (canon_nauty g)) = digest (serialise (canon_nauty h)) ->
+  exists f, inj_on f (node_ids g) /\ geq_cov (relabel f g) h.
+Proof. exact signature_sound_nauty. Qed.
+Print Assumptions C08_signature_sound_nauty.
